@@ -2,11 +2,11 @@
 PROPS["C08"] = dict(
     props_file="Properties/C08.v",
     harnesses=[
-        dict(cmd="snap", mod="root", model="Model.Snap", quick=200, thorough=5000, shard=17, coq_jobs=12,
+        dict(cmd="snap", mod="root", model="Model.Snap", quick=168, thorough=5000, shard=14, coq_jobs=12,
              require=["op.prepare", "op.prepare.target", "op.view", "op.commit", "op.mounts", "op.remove", "op.cleanup",
                       "op.update", "op.close", "cfg.async", "cfg.sync", "fault.mount"]),
         # the same histories evaluated on the CONCURRENT machine run by a single thread (ties Model/SnapConc.v to the code)
-        dict(cmd="snap", mod="root", model="Model.SnapConc", quick=36, thorough=1500, shard=3, coq_jobs=12,
+        dict(cmd="snap", mod="root", model="Model.SnapConc", quick=24, thorough=1500, shard=2, coq_jobs=12,
              require=["op.prepare.target", "op.remove", "op.cleanup"]),
         # 2-4 truly concurrent callers, oracle only; thorough tier also builds it with -race
         dict(cmd="snapconc", mod="root", quick=100, thorough=4000, race=600,
